@@ -14,6 +14,25 @@ func genEmail(rng *rand.Rand, thorough bool) {
 	} {
 		emit(s)
 	}
+	// domains and local parts that look like something else (addresses, literals, reserved names, encodings): the grammar
+	// is purely lexical, so each is judged by its labels alone
+	for _, d := range []string{"1.2.3.4", "192.168.1.1", "0.0.0.0", "255.255.255.255", "256.1.1.1", "1.2.3", "1.2.3.4.5", "001.002.003.004",
+		"1234.1.1.1", "12.34.56.78", "127.0.0.1", "10.0.0.1", "0x7f.0.0.1", "1.2.3.4a", "a1.2.3.4", "[1.2.3.4]", "[::1]", "::1", "1::2", "fe80--1.ipv6-literal.net",
+		"localhost", "localhost.localdomain", "example.invalid", "example.test", "example.local", "example.example", "example.onion", "xn--80ak6aa92e.com",
+		"xn--.com", "b.123", "b.co.uk", "b.c0m", "b.x", "0.a", "a.0", "9", "9.9", "1e3.5", "1-2.3-4", "com", "COM.", "a.b.c.d.e.f.g.h.i.j.k.l.m.n.o.p",
+		"example.com:25", "example.com/path", "example.com?x=1", "example.com#f", "user:pw@example.com", "_dmarc.example.com", "*.example.com", "example..com"} {
+		emit("a@" + d)
+		emit("user@" + d)
+		emit("first.last+tag@" + d)
+		emit(d + "@b.cd")
+		emit(d)
+	}
+	for _, l := range []string{"postmaster", "root", "admin", "no-reply", "MAILER-DAEMON", "1", "12345", "0x10", "+", "-", "_", "a+", "+a", "a++b", "a--b", "a__b", "a+b+c",
+		"a=b", "a/b", "a?b", "a#b", "a%b", "a%40b", "a&b", "a'b", "a*b", "a^b", "a`b", "a{b}", "a|b", "a~b", "a!b", "a$b", "\"a\"", "\"a b\"", "\"\"", "a\"", "\"a", "(c)a", "a(c)",
+		"<a>", "a:b", "mailto:a", "a@b", "null", "nil", "undefined", "true"} {
+		emit(l + "@example.com")
+		emit(l + "@b.cd")
+	}
 	// every byte value at every position of longer members (block-wise implementations; long local parts, labels, domains)
 	for _, m := range []string{"abcdefgh.ijklmnop@qrstuvwx.yzabcdef.com", "a1b2c3d4e5f6g7h8@i9j0k1l2-m3n4o5p6.q7r8", "ops@eu-west-1.compute.internal.example.com",
 		"user.name+tag@aaaaaaaaaaaaaaaaaaaaaaaaaaaaaaaa.bb"} {
@@ -40,6 +59,17 @@ func genEmail(rng *rand.Rand, thorough bool) {
 		emit("ab@cd.e" + c)
 		emit("ab@cd.e" + c + "f")
 		emit("ab" + c + "cd.ef")
+		// one-byte parts, and the same byte at both ends of a part (delimiter-pair handling such as quotes or brackets)
+		emit(c + "@bc.de")
+		emit("ab@" + c + ".de")
+		emit("ab@cd." + c)
+		emit(c + "@" + c + "." + c)
+		emit(c + c + "@bc.de")
+		emit(c + "a" + c + "@bc.de")
+		emit(c + "a b" + c + "@bc.de")
+		emit("ab@" + c + "c" + c + ".de")
+		emit("ab@" + c + c)
+		emit(c + "ab@cd.ef" + c)
 		// internal-helper shaped inputs
 		emit(c)
 		emit("a" + c)
